@@ -22,7 +22,7 @@ import time
 from common import Inconclusive, add_violations_from_bad, finish, log
 
 
-def threads(fns, limit=4):
+def threads(fns, limit=3):
     """Run callables concurrently, at most `limit` at a time (staggered starts); re-raise the first exception."""
     res, errs = [None] * len(fns), []
     sem = threading.Semaphore(limit)
